@@ -99,6 +99,23 @@ class Cases:
             out.append(("stream", "S", b"".join(parts), {"msgs": msgs, "parts": parts}))
         return out
 
+    # G1'': streams whose command is abandoned before its command code was decoded (commandSize below the header
+    # length) - the response that follows has no command code to be interpreted with - and responses decoded with a
+    # command code that is not a TPM_CC
+    def orphan_responses(self, n=24):
+        out = []
+        for _ in range(n * self.scale):
+            c, ci, r, ri = self.G.pair()
+            size = self.rng.choice([0, 1, 2, 5, 6, 7, 9])
+            cut = self.rng.choice([6, 6, 8, 10, len(c)])
+            cmd = c[:2] + size.to_bytes(4, "big") + c[6:cut]
+            out.append(("orphan-response", "S", cmd + r, {"msgs": [], "parts": [cmd, r]}))
+        for _ in range(max(4, n // 3) * self.scale):
+            c, ci, r, ri = self.G.pair()
+            bad = self.rng.choice([0, 1, 0x11E, 0x200, 0x20000000, 0xFFFFFFFF, ci["cc"] + 0x1000])
+            out.append(("unknown-cc-response", "R:%d:0" % bad, r, {}))
+        return out
+
     # G2: size faults on a well-formed message
     def size_faults(self, base, per=3):
         label, root, b, info = base
